@@ -23,8 +23,8 @@ ScArgs(f) == LET n == Len(Requested(f, C)) IN
   \cup (IF f.t = "scalar" THEN {} ELSE {Arg("list", [j \in 1..n |-> IF j % 2 = 1 THEN "log" ELSE "linear"]),
                                         Arg("list", [j \in 1..n |-> IF j = 1 THEN "logicle" ELSE "linear"]),
                                         Arg("list", [j \in 1..n |-> IF j = n THEN "foo" ELSE "logicle"])})
-Overrides == {"none", "T", "M", "W", "TMW", "Tneg", "Mzero", "Wneg", "Wzero"}
-Given(o) == CASE o = "none" -> {} [] o \in {"T", "Tneg"} -> {"T"} [] o \in {"M", "Mzero"} -> {"M"} [] o \in {"W", "Wneg", "Wzero"} -> {"W"} [] OTHER -> {"T", "M", "W"}
+Overrides == {"none", "T", "Tbig", "M", "W", "TMW", "Tneg", "Mzero", "Wneg", "Wzero"}      \* Tbig: a T above 2^18 (M then follows T)
+Given(o) == CASE o = "none" -> {} [] o \in {"T", "Tbig", "Tneg"} -> {"T"} [] o \in {"M", "Mzero"} -> {"M"} [] o \in {"W", "Wneg", "Wzero"} -> {"W"} [] OTHER -> {"T", "M", "W"}
 Sign(o) == [T |-> IF o = "Tneg" THEN "neg" ELSE "pos", M |-> IF o = "Mzero" THEN "zero" ELSE "pos", W |-> IF o = "Wneg" THEN "neg" ELSE IF o = "Wzero" THEN "zero" ELSE "pos"]
 
 Init == stage = 0 /\ scn = <<>> /\ out = <<>>
